@@ -418,8 +418,10 @@ def seq_variants(ns):
             ["arr", "float64", list(ns)], ["list", [["float", n, 1] for n in ns]], ["tuple", [["np", "int64", n, 1] for n in ns]]]
 
 
-def call(fn, desc, targs, kw=(), **extra):
+def call(fn, desc, targs, kw=(), tkw=(), **extra):
     c = {"fn": fn, "desc": desc, "targs": [list(t) for t in targs], "kw": [[k, v] for k, v in kw]}
+    if tkw:
+        c["tkw"] = [[k, list(t)] for k, t in tkw]
     c.update(extra)
     return c
 
@@ -471,11 +473,22 @@ def families(rng):
     fams.append([call(op, "a [b]", [T((2, 3), dt)]) for op in ("mean", "softmax", "sort", "argmax", "flip", "logsumexp") for dt in ("int64", "float64")][:8])
     fams.append([call("where", "a, a b, b -> a b", [T((2,), "bool_"), T((2, 3)), T((3,))]), call("where", "a, a b, -> a b", [T((2,), "bool_"), T((2, 3)), ["S", ["int", 0]]]),
                  call("where", "a, a b, -> a b", [T((2,), "bool_"), T((2, 3)), ["S", ["float", 0, 1]]])])
+    # tensors passed by keyword, in every keyword order and mixed with positional ones (the cache key must not forget which tensor is which)
+    import itertools
+    wt = {"mask": T((2,), "bool_"), "x": T((2, 3)), "y": T((3,))}
+    fams.append([call("where", "a, a b, b -> a b", [], tkw=[[k, wt[k]] for k in order]) for order in itertools.permutations(("mask", "x", "y"))]
+                + [call("where", "a, a b, b -> a b", [wt["mask"]], tkw=[[k, wt[k]] for k in order]) for order in (("x", "y"), ("y", "x"))]
+                + [call("where", "a, a b, b -> a b", [wt["mask"], wt["x"], wt["y"]])])
+    wt2 = {"mask": T((3,), "bool_"), "x": T((3,)), "y": T((3,), "float64")}
+    fams.append([call("where", "a, a, a -> a", [], tkw=[[k, wt2[k]] for k in order]) for order in itertools.permutations(("mask", "x", "y"))])
+    fams.append([call("sum", "a [b]", [], tkw=[["tensor", T((2, 3))]]), call("sum", "a [b]", [T((2, 3))]), call("sum", "a [b]", [], tkw=[["tensor", T((2, 3))]], kw=[("keepdims", ["bool", True])]),
+                 call("sum", "a [b]", [], kw=[("keepdims", ["bool", True])], tkw=[["tensor", T((2, 3), "float64")]])])
     return fams
 
 
 MAX_REPORTS = 10
-WITH_STACKS = [["numpy.einsum"], ["numpy"], ["numpy.einsum", "numpy"], ["numpy.numpylike", "numpy.einsum", "numpy"], ["nosuch"], ["numpy", "nosuch"]]
+WITH_STACKS = [["numpy.einsum"], ["numpy"], ["numpy.einsum", "numpy"], ["numpy.numpylike", "numpy.einsum", "numpy"], ["nosuch"], ["numpy", "nosuch"],
+               ["numpy.einsum", "numpy", "numpy.einsum"], ["numpy", "numpy.einsum", "numpy", "numpy"]]
 
 
 class Plan:
@@ -617,7 +630,7 @@ def report(ctx, srv, hist, probe, origin):
 
 def root_key(h, probe):
     """Groups failing (predecessor, probe) pairs that are the same situation up to the concrete values (one report per group)."""
-    if all(h.get(k) == probe.get(k) for k in ("fn", "desc", "targs", "backend", "graph")) and [k for k, _ in h["kw"]] == [k for k, _ in probe["kw"]]:
+    if all(h.get(k) == probe.get(k) for k in ("fn", "desc", "targs", "tkw", "backend", "graph")) and [k for k, _ in h["kw"]] == [k for k, _ in probe["kw"]]:
         diff = [k for (k, v), (_, w) in zip(h["kw"], probe["kw"]) if v != w]
         if diff:
             return json.dumps(["keyword-type", probe["fn"], diff])
@@ -920,7 +933,19 @@ def run(ctx):
         d0 = call("dot", "a [b], [b] c -> a c", [T((2, 3)), T((3, 2))])
         w3 = call("dot", "a [b], [b] c -> a c", [T((2, 3)), T((3, 2))], graph=True, **{"with": ["numpy.numpylike"]})
         w4 = call("dot", "a [b], [b] c -> a c", [T((2, 3)), T((3, 2))], graph=True, **{"with": ["numpy.einsum", "numpy.numpylike"]})
-        directed = [d8, d8[::-1], [fa, dict(fa)], [s0, w1], [s0, w2], [d0, w3, w4]] + directed
+        # re-entering a backend that is already on the stack and leaving it again must restore the enclosing selection:
+        # calls in blocks [A, B, A], then [A, B], then [A], then outside, for both roles of the two backends
+        reenter = []
+        for A, B in (("numpy.einsum", "numpy"), ("numpy", "numpy.einsum"), ("numpy.numpylike", "numpy.einsum")):
+            mk = lambda stack: call("sum", "a [b]", [T((2, 3))], graph=True, **({"with": stack} if stack else {}))  # noqa: E731
+            mf = lambda stack: call("flip", "a [b]", [T((2, 3))], **({"with": stack} if stack else {}))  # noqa: E731
+            reenter.append([mk([A, B, A]), mk([A, B]), mf([A, B]), mk([A]), mf([A]), mk([]), mf([])])
+            reenter.append([mk([A, A, B]), mk([A, A]), mk([A]), mk([A, B]), mk([])])
+        # keyword tensors in two orders, both ways round
+        wt = {"mask": T((2,), "bool_"), "x": T((2, 3)), "y": T((3,))}
+        wk = lambda order: call("where", "a, a b, b -> a b", [], tkw=[[k, wt[k]] for k in order])  # noqa: E731
+        kworder = [[wk(("mask", "x", "y")), wk(("y", "x", "mask"))], [wk(("y", "x", "mask")), wk(("mask", "x", "y"))], [wk(("x", "mask", "y")), wk(("mask", "y", "x"))]]
+        directed = [d8, d8[::-1], [fa, dict(fa)], [s0, w1], [s0, w2], [d0, w3, w4]] + reenter + kworder + directed
         broken = bool(ctx.broken) or not full_theorem
         n_hist = (20 if ctx.quick else 500) if not broken else (24 if ctx.quick else 800)
         t0 = time.time()
@@ -981,7 +1006,7 @@ def correspondence_memo(ctx, srv, table, plan):
                 src = first[o["ok"]]
                 if o["ok"] != hist[j]:
                     ctx.count("memo:predicted-hit-through-other-call")
-                if items[src]["targs"] != items[i]["targs"] or bool(items[src].get("graph")) != bool(items[i].get("graph")):
+                if items[src]["targs"] != items[i]["targs"] or items[src].get("tkw") != items[i].get("tkw") or bool(items[src].get("graph")) != bool(items[i].get("graph")):
                     ctx.count("memo:unpredictable-data-differs")
                     continue
                 ctx.count("memo:predicted-outcome")
